@@ -387,16 +387,27 @@ fn mapped_walk(ctx: &mut Ctx, bits: &BitsDesc, mask: u8) {
         // [number of set bits][raw vector][optional rank][optional select][optional select_zero]
         let raw = RawVectorMapper::new(&map, 1).map_err(|e| e.to_string())?;
         let mut at = raw.map_offset() + raw.map_len();
-        let rank = MappedOption::<MappedSlice<(u64, u64)>>::new(&map, at).map_err(|e| format!("rank support at {}: {}", at, e))?;
-        let mut present = rank.is_some() as u8;
-        at = rank.map_offset() + rank.map_len();
-        // The select supports are larger than the one integer vector the view type covers: the length of the
-        // optional is what its header says, not what the inner view happens to cover.
-        for k in 1..3u8 {
-            let sel = MappedOption::<IntVectorMapper>::new(&map, at).map_err(|e| format!("select support {} at {}: {}", k, at, e))?;
-            present |= (sel.is_some() as u8) << k;
-            at = sel.map_offset() + sel.map_len();
+        // The contents of the support structures are implementation-dependent, so the optional parts are viewed
+        // through types that assume as little as possible (a plain slice of elements, else an integer vector) and
+        // that may well cover LESS than the optional stores: the length of a mapped optional is what its header
+        // says, not what the inner view happens to cover. If no view type fits, the header is read directly.
+        let mut present = 0u8;
+        let mut typed_views = 0usize;
+        for k in 0..3u8 {
+            let (is_some, next) = if let Ok(o) = MappedOption::<MappedSlice<u64>>::new(&map, at) {
+                typed_views += 1;
+                (o.is_some(), o.map_offset() + o.map_len())
+            } else if let Ok(o) = MappedOption::<IntVectorMapper>::new(&map, at) {
+                typed_views += 1;
+                (o.is_some(), o.map_offset() + o.map_len())
+            } else {
+                let size = *map.as_ref().get(at).ok_or_else(|| format!("optional {} starts at {} beyond the end of the file", k, at))? as usize;
+                (size > 0, at + 1 + size)
+            };
+            present |= (is_some as u8) << k;
+            at = next;
         }
+        let _ = typed_views;
         Ok::<(u8, usize, usize), String>((present, at, map.len()))
     });
     let _ = std::fs::remove_file(&path);
